@@ -3,7 +3,7 @@ import os, sys, time
 from . import core
 
 
-GENERATED = [("c01", "C01Atomic"), ("c03", "C03Chain"), ("c06", "C06Table"), ("c20", "C20Clean"), ("c20locks", "C20Locks")]
+GENERATED = [("c01", "C01Atomic"), ("c03", "C03Chain"), ("c06", "C06Table"), ("c20", "C20Clean"), ("c20locks", "C20Locks"), ("c17idx", "C17Idx")]
 
 
 def harness_names():
